@@ -36,7 +36,7 @@ def PC.singleSendX : PC → Bool
 
 /-- program points of the receive programs (the handle is a counted receiver of stream `x.s`) -/
 def PC.recvOp : PC → Bool
-  | .r0 | .u1 .recvStart | .u2 .recvStart _ | .u3 .recvStart _ | .la1 | .la2 | .w0 _ | .c1 _ _ _ | .c2 _ _ _ _
+  | .r0 | .u1 .recvStart | .u2 .recvStart _ | .u3 .recvStart _ | .is1 | .la1 | .la2 | .w0 _ | .c1 _ _ _ | .c2 _ _ _ _
   | .wy _ _ _ | .wl _ _ | .wcvw _ _ | .wblk _ _ | .pk _ _ | .psl | .nf true 12 => true
   | pc => pc.recvActive
 
@@ -81,6 +81,18 @@ def newHd0 (h : Hd) (sender : Bool) : Prop :=
 /-- program points of the calls that create a handle -/
 def PC.newPath (pc : PC) : Bool := pc.cloneS || pc == .cr1 || pc.addPC || pc.afterNew
 
+/-- receive program points that carry the per-call flag "this handle was the only counted one of its stream"
+(`is_single()` of `try_recv`, loaded before the position) -/
+def PC.sgFlag : PC → Bool
+  | .r1 _ sg | .r2 _ sg | .r3 _ sg | .r3b _ sg | .r5 _ sg | .rd _ sg | .rc _ sg _ | .r9 _ sg _ | .r7 sg | .fg _ sg => sg
+  | _ => false
+
+/-- … including the two program points between the load of the flag and the load of the position -/
+def Th.sgOn (x : Th) : Bool :=
+  match x.pc with
+  | .la1 | .la2 => x.aux == 1 && !x.outer.viewCall
+  | pc => pc.sgFlag
+
 /-- per-thread facts -/
 structure TLoc (σ : St) (x : Th) : Prop where
   busy : x.pc ≠ .idle → (σ.hs x.g).busy = true ∧ (σ.hs x.g).used = true
@@ -116,6 +128,8 @@ structure TLoc (σ : St) (x : Th) : Prop where
     ((σ.hs x.ng).sender = true → x.ng ∈ σ.sl) ∧ ((σ.hs x.ng).sender = false → x.ng ∈ σ.cl (σ.hs x.ng).stream)
   /-- only the creating calls run the creating programs -/
   op : x.pc ≠ .idle → x.pc.newPath = false → x.outer ≠ .clone ∧ x.outer ≠ .addStream
+  /-- a receive that skips the pin (`is_single` read as true) is by the only counted handle of its stream -/
+  sgl : x.sgOn = true → σ.cl x.s = [x.g]
 
 /-- the thread is creating a handle `ng` -/
 def Th.creating (y : Th) : Prop :=
